@@ -222,11 +222,26 @@ def run_inference(prog, funcs, order=None):
     phases = [[build_stmt(prog[i][1], i) for i in g] for g in groups]
     freg = make_registry(funcs)
     buf = io.StringIO()
+    # "a unification failed and inference went on all the same" (SymbolKindTable.set swallows the failure) is
+    # recognised by watching dagrt.data.unify itself, not by the wording of what set() prints
+    import dagrt.data as dd
+    swallowed = []
+    orig_unify = dd.unify
+
+    def spy(a, b):
+        try:
+            return orig_unify(a, b)
+        except Exception:
+            swallowed.append(1)
+            raise
+    dd.unify = spy
     try:
         with contextlib.redirect_stdout(buf):
             tbl = SymbolKindFinder(freg)(names, phases)
     except Exception as e:
         return {"err": type(e).__name__}
+    finally:
+        dd.unify = orig_unify
     items = []
     for n, k in tbl.global_table.items():
         items.append(["|" + n, kind_js(k)])
@@ -234,4 +249,4 @@ def run_inference(prog, funcs, order=None):
         for n, k in t.items():
             items.append([ph + "|" + n, kind_js(k)])
     items.sort(key=lambda p: p[0])
-    return {"ok": items, "printed": "trying to derive" in buf.getvalue()}
+    return {"ok": items, "printed": bool(swallowed) or bool(buf.getvalue().strip())}
